@@ -85,6 +85,8 @@ def defined_oids(spec, allspecs):
         dr = module_oid(allspecs[d], allspecs)
         if dr is not None:
             out.append(dr + (7000 + spec['arc'] % 1000,))
+    if spec.get('oiddefval') and not spec.get('smiv1'):
+        out.append(r + (60,))
     if spec.get('compliance') and not spec.get('smiv1'):
         out.append(r + (9999,))
         if spec.get('arcs'):
@@ -123,7 +125,7 @@ def render(spec, allspecs=None):
         extra = ''
         if v == 'badref' and d == spec.get('oidparent'):
             extra = ', %sNoSuchNode' % sym(d)
-        lines.append('    %s%s FROM %s' % (root_sym(d), extra, d))
+        lines.append('    %s%s FROM %s' % (root_sym(d), extra, spec.get('spell', {}).get(d, d)))
     lines[-1] += ';'
     lines.append('')
     parent = root_sym(spec['oidparent']) if spec.get('oidparent') else 'enterprises'
@@ -190,6 +192,10 @@ def render(spec, allspecs=None):
         if v == 'forbidden' and i == 0:
             lines.append('%sBad OBJECT IDENTIFIER ::= { FALSE 1 }' % sym(name))
         lines.append('')
+    if spec.get('oiddefval') and not spec.get('smiv1'):
+        tgt = root_sym(imps[0]) if imps and imps[0] != name else 'enterprises'
+        lines += ['%sOidObj OBJECT-TYPE' % sym(name), '    SYNTAX OBJECT IDENTIFIER', '    MAX-ACCESS read-write', '    STATUS current',
+                  '    DESCRIPTION "an OID-valued object whose default names an imported node"', '    DEFVAL { %s }' % tgt, '    ::= { %s 60 }' % me, '']
     if spec.get('fakeidx'):
         t = sym(name)
         acc, st = ('ACCESS', 'mandatory') if spec.get('smiv1') else ('MAX-ACCESS', 'current')
@@ -284,6 +290,8 @@ def gen_modules(rng, n, cycles=True, defects=0.0, compliance=0.3, identity=0.7, 
             spec['smiv1'] = True
             spec['identity'] = False
             spec['compliance'] = False
+        if rng.random() < 0.2:
+            spec['oiddefval'] = True
         if rng.random() < defects:
             spec['variant'] = rng.choice(DEFECTS)
         specs[name] = spec
